@@ -1,7 +1,7 @@
 SPECIFICATION Spec
 CHECK_DEADLOCK FALSE
 VIEW view
-INVARIANTS C05
+INVARIANTS C05 QuietAfterPause
 CONSTANTS
   Streams <- S2
   TaskOf <- TaskOf1
@@ -10,3 +10,5 @@ CONSTANTS
   MaxFaults = 1
   MaxCrashes = 1
   MayPause = TRUE
+  StopOnAckFailure = TRUE
+  RetryAfterPause = FALSE
